@@ -7,6 +7,10 @@ package control
 //                                     builders: r = NewRoutingMatcherBuilder + BuildUserspace,
 //                                     q = dns.NewRequestMatcherBuilder + Build, s = dns.NewResponseMatcherBuilder + Build
 //                                     answer: "ok sets=<n>" (r) | "ok" (q, s) | "err:oversize" | "err:unknownFunction" | …
+//   y r|s <maxLen> <textHex>          the PRODUCTION path of a configuration text: Parse → config.New → the optimizer chain of
+//                                     NewControlPlane (regenerated from control_plane.go: c01ProductionOptimizers) →
+//                                     NewRoutingMatcherBuilderFromProgram + BuildUserspace (r) | dns.New (s: response rules);
+//                                     model: parse → routing rules with patchMustOutbound → alias / merge / dedup → compileSize
 //   n <textHex>                       whole pipeline Parse → config.New → optimizers (alias, geodata .dat reader over a
 //                                     temp dir, merge/sort, dedup) → matcher builders (traffic + DNS);
 //                                     answer "done" (anything else = panic)
@@ -102,6 +106,167 @@ func c17Compile(log *logrus.Logger, which string, in string) string {
 			return "ok"
 		}
 	})
+}
+
+// c17Production compiles the rules of a configuration text the way the daemon does.
+func c17Production(log *logrus.Logger, finder *assets.LocationFinder, which string, in string) string {
+	return VRecover(func() string {
+		ss, err := config_parser.Parse(in)
+		if err != nil {
+			return "err:parse"
+		}
+		conf, err := config.New(ss)
+		if err != nil {
+			return "err:new:" + err.Error()
+		}
+		if which == "r" {
+			program, err := routing.NewNormalizedProgram(conf.Routing.Rules, conf.Routing.Fallback, c01ProductionOptimizers(log, finder)...)
+			if err != nil {
+				return "err:optimize:" + err.Error()
+			}
+			b, err := NewRoutingMatcherBuilderFromProgram(log, program, c17Name2Id, nil)
+			if err != nil {
+				return c17CompileErr(err)
+			}
+			n := len(b.rules)
+			if _, err = b.BuildUserspace(); err != nil {
+				return c17CompileErr(err)
+			}
+			return fmt.Sprintf("ok sets=%d", n)
+		}
+		if _, err = dns.New(&conf.Dns, &dns.NewOption{Logger: log, LocationFinder: finder, UpstreamReadyCallback: func(*dns.Upstream) error { return nil }}); err != nil {
+			return c17CompileErr(err)
+		}
+		return "ok"
+	})
+}
+
+// yProgram writes a configuration whose rule section is shaped for the optimizers: runs of mergeable
+// single-condition rules (same function, same outbound - also `must_x` next to `x(must)`, which
+// patchMustOutbound makes equal), runs that must NOT merge (negated, different outbound parameters, two
+// conditions), repeated values, the aliases dip / dport and the domain keys "" / domain / contains / suffix.
+// `target` is about the number of match sets BEFORE the optimizers.
+func (g *c17ZGen) yProgram(which string, target int) string {
+	var b strings.Builder
+	if which == "r" {
+		b.WriteString("global {}\nrouting {\n")
+	} else {
+		b.WriteString("global {}\nrouting {}\ndns {\n  upstream {\n    googledns: 'udp://8.8.8.8:53'\n    alidns: 'udp://223.5.5.5:53'\n  }\n  routing {\n    response {\n")
+	}
+	outs := []string{"direct", "proxy", "block", "my_group", "must_direct", "direct(must)", "proxy(mark: 1)", "proxy(mark: 2)", "must_proxy(mark: 1)", "proxy(mark: 1, must)"}
+	if which != "r" {
+		outs = []string{"accept", "reject", "googledns", "alidns"}
+	}
+	val := func(fn string, i int) string {
+		switch fn {
+		case "port", "dport", "sport":
+			return fmt.Sprint(1 + i%60000)
+		case "ip", "dip", "sip":
+			if i%5 == 4 {
+				return fmt.Sprintf("'2001:db8::%x'", i%65536)
+			}
+			return fmt.Sprintf("10.%d.%d.%d", (i>>16)&255, (i>>8)&255, i&255)
+		case "pname":
+			return fmt.Sprintf("p%d", i%3000)
+		case "dscp":
+			return fmt.Sprint(i % 64)
+		case "qtype":
+			return fmt.Sprint(1 + i%250)
+		case "upstream":
+			return []string{"googledns", "alidns"}[i%2]
+		case "mac":
+			return fmt.Sprintf("'02:42:ac:11:%02x:%02x'", (i>>8)&255, i&255)
+		case "l4proto":
+			return []string{"tcp", "udp"}[i%2]
+		case "ipversion":
+			return []string{"4", "6"}[i%2]
+		}
+		return fmt.Sprintf("d%d.example.com", i)
+	}
+	fns := []string{"dport", "port", "dip", "ip", "sip", "sport", "pname", "dscp", "domain", "domain", "l4proto", "mac", "ipversion"}
+	if which != "r" {
+		fns = []string{"qtype", "qtype", "ip", "upstream", "qname", "qname"}
+	}
+	cond := func(fn string, i *int, neg bool) (string, int) {
+		n := 1 + g.r.Intn(3)
+		var ps []string
+		sets := 0
+		keys := map[string]bool{}
+		seen := map[string]bool{}
+		for j := 0; j < n; j++ {
+			v := val(fn, *i)
+			if g.r.Chance(0.25) && j > 0 { // a repeated value: removed by the dedup stage
+				v = val(fn, *i-1)
+			} else {
+				*i++
+			}
+			key := ""
+			if fn == "domain" || fn == "qname" {
+				key = g.pick("", "suffix", "full", "keyword", "domain", "contains", "regex")
+				if fn == "qname" && (key == "domain" || key == "contains" || key == "") {
+					key = "suffix" // the DNS chain has no alias stage: qname takes the authoritative keys only
+				}
+			}
+			if key != "" {
+				ps = append(ps, key+": "+v)
+			} else {
+				ps = append(ps, v)
+			}
+			keys[key] = true
+			if !seen[key+":"+v] {
+				seen[key+":"+v] = true
+				sets++
+			}
+		}
+		switch fn {
+		case "domain", "qname", "ip", "dip", "sip", "l4proto", "mac", "ipversion":
+			sets = len(keys)
+		}
+		s := fn + "(" + strings.Join(ps, ", ") + ")"
+		if neg {
+			s = "!" + s
+		}
+		return s, sets
+	}
+	total, i := 0, 0
+	for total < target {
+		fn := fns[g.r.Intn(len(fns))]
+		out := outs[g.r.Intn(len(outs))]
+		run := 1
+		switch g.r.Intn(4) {
+		case 0:
+			run = 2 + g.r.Intn(6)
+		case 1:
+			run = 10 + g.r.Intn(60)
+		}
+		kind := g.r.Intn(10)
+		for k := 0; k < run && total < target; k++ {
+			neg := kind == 0
+			c, n := cond(fn, &i, neg)
+			o := out
+			switch kind {
+			case 1: // the outbound alternates: nothing merges
+				o = outs[(k+i)%len(outs)]
+			case 2: // two conditions: never merged, sorted by function name
+				fn2 := fns[g.r.Intn(len(fns))]
+				c2, n2 := cond(fn2, &i, g.r.Chance(0.2))
+				c, n = c+" && "+c2, n+n2
+			case 3: // equal after patchMustOutbound
+				if which == "r" {
+					o = []string{"must_direct", "direct(must)"}[k%2]
+				}
+			}
+			b.WriteString("  " + c + " -> " + o + "\n")
+			total += n
+		}
+		g.stats.Inc(fmt.Sprintf("y.run.kind%d", kind))
+	}
+	if which == "r" {
+		b.WriteString("  fallback: " + g.pick("direct", "proxy", "must_direct", "my_group") + "\n}\n")
+	} else {
+		b.WriteString("      fallback: " + g.pick("accept", "googledns") + "\n    }\n  }\n}\n")
+	}
+	return b.String()
 }
 
 type c17ZGen struct {
@@ -498,6 +663,8 @@ func c17EvalOp(log *logrus.Logger, finder *assets.LocationFinder, op string, cnt
 	switch {
 	case len(w) == 4 && w[0] == "z":
 		return c17Compile(log, w[1], unhex(w[3]))
+	case len(w) == 4 && w[0] == "y":
+		return c17Production(log, finder, w[1], unhex(w[3]))
 	case len(w) == 2 && w[0] == "n":
 		return c17Pipeline(log, cnt, finder, unhex(w[1]))
 	case len(w) == 1 && w[0] == "n":
@@ -718,6 +885,72 @@ func TestVerifC17Compile(t *testing.T) {
 	}
 	nzOps := len(ops)
 
+	// the production path (config.New, the optimizer chain, the builder): programs whose size BEFORE the
+	// optimizers is small, around the limit, or far beyond it (merging and dedup bring many of them back)
+	ny := VEnvInt("VERIF_C17_PRODUCTION_N", 80)
+	if VThorough() {
+		ny = VEnvInt("VERIF_C17_PRODUCTION_N", 400)
+	}
+	ny /= shards
+	for i := 0; i < ny; i++ {
+		which := []string{"r", "r", "r", "s"}[i%4]
+		var target int
+		switch g.r.Intn(5) {
+		case 0:
+			target = 1 + g.r.Intn(40)
+		case 1:
+			target = max - 30 + g.r.Intn(60)
+		case 2:
+			target = max + 1 + g.r.Intn(400)
+		case 3:
+			target = 2*max + g.r.Intn(2000)
+		default:
+			target = 200 + g.r.Intn(800)
+		}
+		in := g.yProgram(which, target)
+		if i < 2 && shard == 0 && len(in) < 600 {
+			stats.Sample("production " + which + ": " + in)
+		}
+		ops = append(ops, fmt.Sprintf("y %s %d %s", which, max, c17Hex(in)))
+	}
+	if shard == 0 { // directed: the same 1100 conditions, merged into few sets or kept apart
+		rep := func(f func(i int) string, n int) string {
+			var b strings.Builder
+			b.WriteString("global {}\nrouting {\n")
+			for i := 0; i < n; i++ {
+				b.WriteString("  " + f(i) + "\n")
+			}
+			b.WriteString("}\n")
+			return b.String()
+		}
+		for _, n := range []int{max - 2, max - 1, max, max + 76} {
+			type dir struct {
+				name string
+				f    func(i int) string
+			}
+			for _, d := range []dir{
+				{"ports-one-outbound", func(i int) string { return fmt.Sprintf("dport(%d) -> direct", 1+i) }},                                // one rule, n values: n sets
+				{"ports-same-value", func(i int) string { return "dport(80) -> direct" }},                                                    // one rule, one value
+				{"ips-one-outbound", func(i int) string { return fmt.Sprintf("dip(10.0.%d.%d) -> proxy", i>>8, i&255) }},                     // one rule, one group: 1 set
+				{"ports-two-outbounds", func(i int) string { return fmt.Sprintf("dport(%d) -> %s", 1+i, []string{"direct", "proxy"}[i%2]) }}, // nothing merges: n sets
+				{"ports-negated", func(i int) string { return fmt.Sprintf("!dport(%d) -> direct", 1+i) }},                                    // negated: never merged
+				{"must-spellings", func(i int) string {
+					return fmt.Sprintf("dport(%d) -> %s", 1+i, []string{"must_direct", "direct(must)"}[i%2])
+				}},
+				{"domain-keys-aliased", func(i int) string {
+					return fmt.Sprintf("domain(%sd%d.com) -> direct", []string{"", "domain: ", "suffix: "}[i%3], i)
+				}}, // one suffix group
+				{"domain-keys-distinct", func(i int) string {
+					return fmt.Sprintf("domain(%sd%d.com) -> direct", []string{"full: ", "keyword: ", "suffix: "}[i%3], i)
+				}},
+			} {
+				ops = append(ops, fmt.Sprintf("y r %d %s", max, c17Hex(rep(d.f, n))))
+				stats.Inc("y.directed." + d.name)
+			}
+		}
+	}
+	nyOps := len(ops)
+
 	np := VEnvInt("VERIF_C17_PIPELINE_N", 600)
 	if VThorough() {
 		np = VEnvInt("VERIF_C17_PIPELINE_N", 10000)
@@ -767,7 +1000,18 @@ func TestVerifC17Compile(t *testing.T) {
 		if i < len(res) {
 			out = res[i]
 		}
-		if i < nzOps {
+		if i >= nzOps && i < nyOps {
+			which := strings.Fields(op)[1]
+			cls := out
+			if strings.HasPrefix(out, "ok") {
+				cls = "ok"
+			} else if strings.HasPrefix(out, "err:new") || strings.HasPrefix(out, "err:optimize") || strings.HasPrefix(out, "err:other") {
+				cls = strings.Join(strings.SplitN(out, ":", 3)[:2], ":")
+			} else if strings.HasPrefix(out, "crash") {
+				cls = "CRASH"
+			}
+			stats.Inc("y." + which + ".result." + cls)
+		} else if i < nzOps {
 			which := strings.Fields(op)[1]
 			cls := out
 			if strings.HasPrefix(out, "ok") {
